@@ -1103,6 +1103,10 @@ impl TwoFloat {
             Self::from(0.0)
         } else if self <= -1.0 {
             Self::NAN
+        } else if self.hi < -0.5 {
+            // 1 + self is computed without cancellation error here, and the low word is no
+            // longer negligible next to 1 + hi, which the starting value below assumes
+            (1.0 + self).ln()
         } else {
             let mut x = Self::from(libm::log1p(self.hi));
             let mut e = x.exp_m1();
